@@ -1,0 +1,39 @@
+//go:build verif
+
+package set
+
+// Representation-independent statements of property C26's mechanism, phrased through the
+// public methods only (they keep type-checking whatever the internal representation is).
+
+// lemma_API_SetHas: after Set(n), Has(n) holds and the answer for every other m is unchanged.
+//
+//@ props C26
+//@ inline Set Has
+func lemma_API_SetHas(bs *Ints, n uint64, m uint64) {
+	requires(bs != nil && m != n)
+	before := bs.Has(m)
+	bs.Set(n)
+	ensures(bs.Has(n))
+	ensures(bs.Has(m) == before)
+}
+
+// lemma_API_ClearHas: after Clear(n), Has(n) is false and every other m is unchanged.
+//
+//@ props C26
+//@ inline Clear Has
+func lemma_API_ClearHas(bs *Ints, n uint64, m uint64) {
+	requires(bs != nil && m != n)
+	before := bs.Has(m)
+	bs.Clear(n)
+	ensures(!bs.Has(n))
+	ensures(bs.Has(m) == before)
+}
+
+// lemma_API_Empty: the zero value is the empty set.
+//
+//@ props C26
+//@ inline Has
+func lemma_API_Empty(n uint64) {
+	var bs Ints
+	ensures(!bs.Has(n))
+}
